@@ -249,7 +249,12 @@ def run_history(cfg, ops, prop="C16", whitebox=True):
                 probe("remove_undefined")
             if len(set(nodes)) != len(nodes):
                 probe("remove_repeated")
-            eng.remove_positions(m, list(nodes))
+            # the keys are handed over as list, tuple or one-shot iterator ("iterable" in the docstring)
+            style = (len(nodes) + int(sum(map(ord, tag)))) % 3
+            arg = list(nodes) if style == 0 else (tuple(nodes) if style == 1 else iter(list(nodes)))
+            if style == 2:
+                probe("remove_given_as_iterator")
+            eng.remove_positions(m, arg)
             for n in nodes:
                 model.pos.pop((m, n), None)
             rec.emit("remove", mol=m, nodes=nodes)
